@@ -154,6 +154,18 @@ def same(a, b):
         return False
 
 
+def target(work, kind, name):
+    """path of `name` in work/sub, the directory being reached plainly, through a symlink, relative to the cwd, or both"""
+    d = os.path.join(work, "sub")
+    if kind in ("symlink", "symrel"):
+        d = os.path.join(work, "link")
+        os.symlink(os.path.join(work, "sub"), d)
+    p = os.path.join(d, name)
+    if kind in ("rel", "symrel"):
+        p = os.path.relpath(p, os.getcwd())
+    return p
+
+
 def run(case, base, idx):
     objs, val = build_heap(case["heap"])
     ids = {id(o): n for n, o in enumerate(objs)}
@@ -187,7 +199,7 @@ def run(case, base, idx):
             if kind == "parse_string":
                 result = p.parse_string(text)
             else:
-                f = os.path.join(work, "sub", "cfg.json")
+                f = target(work, op.get("dir", "plain"), "cfg.json")
                 with open(f, "w") as fh:
                     fh.write(text)
                 result = p.parse_path(f)
@@ -196,7 +208,7 @@ def run(case, base, idx):
         elif kind == "dump":
             p.dump(val(op["a"]), skip_validation=op["skipval"])
         elif kind == "save":
-            f = os.path.join(work, "sub", "out.yaml")
+            f = target(work, op.get("dir", "plain"), "out.yaml")
             if op["exists"]:
                 with open(f, "w") as fh:
                     fh.write("a: 1\n")
@@ -234,8 +246,8 @@ def run(case, base, idx):
 
 def main():
     payload = json.load(sys.stdin)
-    base = payload["scratch"]
-    os.makedirs(base, exist_ok=True)
+    os.makedirs(payload["scratch"], exist_ok=True)
+    base = os.path.realpath(payload["scratch"])
     os.chdir(base)
     out = []
     try:
